@@ -15,6 +15,7 @@ real output from the harness's list of injected faults (item extents), independe
 import os, re, shutil, time
 from concurrent.futures import ThreadPoolExecutor
 import lib
+from translators import c12_name_checks
 
 META = dict(
     id='C12',
@@ -47,6 +48,17 @@ TYPO_ACCOUNTS = ['Expenses:Fod', 'Expenses:Fodo', 'Expenses:Rnet', 'Assets:Csh',
 TYPO_PAYEES = ['Shopp', 'Land lord', 'Employr', 'RailCo', 'shop']
 TYPO_TAGS = ['Knwon', 'Knownn', 'Receipt', 'Project']
 TYPO_COMMS = ['XYZ', 'EURO', 'USD', 'eur']
+
+
+_FACTS = {}
+
+
+def name_check_facts():
+    """which commodity positions of a posting line the source under test hands to register_commodity
+    (the same facts the translator writes into coq/Gen/NameChecks.v)"""
+    if lib.REPO not in _FACTS:
+        _FACTS[lib.REPO] = c12_name_checks.facts(lib.REPO)
+    return _FACTS[lib.REPO]
 
 
 def doc_style(o):
@@ -477,12 +489,15 @@ class Builder:
             cost = ('%d ' + C) if undeclared else '$%d'
             p1 = '    %s  %d %s %s' % (a1, q, good, rng.choice(['@ ' + cost % pr, '@@ ' + cost % (pr * q), '(@) ' + cost % pr]))
             unchecked = 'cost' if undeclared else None
+            pos = ('cost', 'cost')
         elif form == 'lotprice':
             p1 = '    %s  %d %s {%s}' % (a1, q, good, ('%d %s' % (pr, C)) if undeclared else '$%d' % pr)
             unchecked = 'lot-price' if undeclared else None
+            pos = ('lotprice', 'lot_price')
         elif form == 'assign':
             p1 = '    %s  = %d %s' % (a1, q, C)
             unchecked = 'assignment' if undeclared else None
+            pos = ('assigned', 'assigned')
         elif form == 'assert0':
             # the account holds nothing in that commodity: the assertion is true
             n = self.uniq()
@@ -491,6 +506,7 @@ class Builder:
             if not undeclared:
                 p1 = '    %s  $%d.00' % (a1, q)
             unchecked = 'assertion' if undeclared else None
+            pos = ('assigned', 'assigned')
         elif form in ('virtual', 'vpair'):
             acct = rng.choice(self.undeclared_accounts()) if undeclared else rng.choice(valid)
             br = '(%s)' if form == 'virtual' else '[%s]'
@@ -515,6 +531,15 @@ class Builder:
                 extra = [('    ; Payee: ' + name, ['s', A_PAYEE] if undeclared else ['s'])]
             if undeclared:
                 classes.append('payee')
+        if unchecked:
+            # the model is told where the undeclared commodity stands; whether that position is
+            # checked it takes from Gen/NameChecks.v.  By the documentation it is an undeclared
+            # commodity like any other: where the source under test checks the position the item is an
+            # ordinary fault, where it does not the oracle reports it under its own key
+            l1.append(['uc', pos[0], K_COMMODITY])
+            if name_check_facts()[pos[1]]:
+                classes.append('commodity')
+                unchecked = None
         lines = [(head, ['i', [], 1, []]), (p1, l1)]
         if extra and form == 'payeetag':
             lines += extra
@@ -1261,6 +1286,8 @@ def run(ctx, n_override=None):
         res.extra['generated_tables'] = {'Gen/StatusOfCount.v': [l for l in gen.split('\n') if l.startswith('Definition') or 'shape' in l]}
         gen = open(os.path.join(lib.COQ, 'Gen', 'CheckingStyle.v')).read()
         res.extra['generated_tables']['Gen/CheckingStyle.v'] = [l for l in gen.split('\n') if l.startswith('Definition') or 'precedence' in l]
+        gen = open(os.path.join(lib.COQ, 'Gen', 'NameChecks.v')).read()
+        res.extra['generated_tables']['Gen/NameChecks.v'] = [l for l in gen.split('\n') if l.startswith('Definition')]
     except OSError:
         pass
     return res
